@@ -1,10 +1,10 @@
 SPECIFICATION ISpec
 CONSTANTS
   Procs = {1,2}
-  Objs = {1}
+  Objs = {1,2}
   Keys = {1}
   MaxCalls = 1
-  Variant = "racy"
+  Variant = "shared"
   Algo = "sf"
-INVARIANTS FnStartOK
+INVARIANTS CallEndOK WaitOK
 CHECK_DEADLOCK TRUE
